@@ -206,6 +206,9 @@ def _aux_pool(S, cfg, pool, W, main_spec):
             out.append(['mod', v, m] if (m > 1 or S.coin(0.35)) else v)
         return out
 
+    def all_mod(vals):
+        return [['mod', v, m] for v, m in vals]
+
     seq = main_spec['seq']
     add('losses', 'L0', {'kind': 'nf', 'val': nf_list([['tuple', [S.pick(['[ST]', 'K', '[DE]', 'P']), -18.0]],
                                                        ['tuple', [S.pick(['[RK]', 'A', 'M']), -17.5]]][
@@ -240,6 +243,10 @@ def _aux_pool(S, cfg, pool, W, main_spec):
         elif key == 'pos':
             md.append([S.randint(0, max(0, len(seq) - 1)), nf_list(nf_vals(SP.gen_mods(S, cfg, 1, 2)))
                        if S.coin(0.7) else SP.gen_value(S, cfg)])
+        elif key == 'labile':
+            # labile modifications are documented as Mod objects only (add_labile_mods: Union[List[Mod], Mod])
+            md.append([key, nf_list(all_mod(SP.gen_mods(S, cfg, 1, 2))) if S.coin(0.7) else
+                       ['mod', SP.gen_value(S, cfg), 1]])
         else:
             md.append([key, nf_list(nf_vals(SP.gen_mods(S, cfg, 1, 2))) if S.coin(0.7) else SP.gen_value(S, cfg)])
     seen, md2 = set(), []
@@ -257,7 +264,6 @@ def _aux_pool(S, cfg, pool, W, main_spec):
         [nf_list(nf_vals(SP.gen_mods(S, cfg, 1, 1))) for _ in range(S.randint(1, 2))]) if S.coin(0.6) else
         nf_list(nf_vals(SP.gen_mods(S, cfg, 1, 2)))]]]})
     # the same rules in their most explicit documented form: nested groups of Mod OBJECTS, one group empty
-    all_mod = lambda vals: [['mod', v, m] for v, m in vals]     # noqa: E731
     groups = [nf_list(all_mod(SP.gen_mods(S, cfg, 1, 1))) for _ in range(S.randint(1, 2))]
     groups.insert(S.randint(0, len(groups)), nf_list([]))
     add('vmods', 'VM1', {'kind': 'nf', 'val': ['dict', [[S.pick(res), nf_list(groups)]]]})
@@ -265,6 +271,19 @@ def _aux_pool(S, cfg, pool, W, main_spec):
     add('tmods', 'TM1', {'kind': 'nf', 'val': nf_list(tgroups[::S.pick([1, -1])]) if S.coin(0.5) else
                          ['dict', [['', nf_list(tgroups)]]]})
     add('modlist', 'ML0', {'kind': 'nf', 'val': nf_list(nf_vals(SP.gen_mods(S, cfg, 1, 3)))})
+    # lists of Mod / Interval OBJECTS and single values, for the exported helper functions
+    mo = SP.gen_mods(S, cfg, 1, 3)
+    add('modobjs', 'MO0', {'kind': 'nf', 'val': nf_list(all_mod(mo))})
+    add('modobjs', 'MO1', {'kind': 'nf', 'val': nf_list(all_mod(mo[::-1] if S.coin(0.6) else SP.gen_mods(S, cfg, 1, 2)))})
+    add('modgroups', 'MG0', {'kind': 'nf', 'val': nf_list([nf_list(all_mod(SP.gen_mods(S, cfg, 1, 2))), nf_list([]),
+                                                            nf_list(all_mod(SP.gen_mods(S, cfg, 1, 1)))][:S.randint(2, 3)])})
+    add('modone', 'MD0', {'kind': 'nf', 'val': ['mod', SP.gen_value(S, cfg), S.pick([1, 1, 2])]})
+    iv_a = ['interval', 0, 2, False, all_mod(SP.gen_mods(S, cfg, 1, 2))]
+    iv_b = ['interval', 2, 3, True, None]
+    add('ivobjs', 'IO0', {'kind': 'nf', 'val': nf_list([iv_a, iv_b])})
+    add('ivobjs', 'IO1', {'kind': 'nf', 'val': nf_list([iv_b, copy.deepcopy(iv_a)] if S.coin(0.6) else [iv_b])})
+    add('ivone', 'IV1', {'kind': 'nf', 'val': ['tuple', [1, 3, False, nf_list(nf_vals(SP.gen_mods(S, cfg, 1, 2)))]]
+                         if S.coin(0.6) else copy.deepcopy(iv_a)})
     add('isolist', 'IL0', {'kind': 'nf', 'val': nf_list([['mod', i, 1] if S.coin(0.4) else i
                                                          for i in S.sample(SP.ISOTOPES[:5], S.randint(1, 2))])})
     add('staticlist', 'SL0', {'kind': 'nf', 'val': nf_list(
@@ -337,7 +356,7 @@ def _mk_world(S, cfg, specs, vias, tier):
 def gen_plan(S, index, tier):
     opnames = sorted(OPS)
     npairs = len(opnames) ** 2
-    pair_specs = len(world.FIXED_SPECS) if tier == 'quick' else len(world.FIXED_SPECS)
+    pair_specs = 3 if tier == 'quick' else len(world.FIXED_SPECS)
     pair_runs = npairs * pair_specs
     header = {'property': ID, 'seed': S.seed, 'index': index, 'tier': tier}
     if index < pair_runs:
@@ -684,6 +703,9 @@ def _gen_pair_plan(S, index, header, opnames, tier='quick'):
     n = len(opnames)
     k, rest = divmod(index, n * n)
     i, j = divmod(rest, n)
+    if tier == 'quick':
+        # three of the five fixed Specs per ordered pair, rotating with the pair (the thorough tier takes all five)
+        k = (2 * k + i + j) % len(world.FIXED_SPECS)
     cfg = SP.swarm_cfg(S)
     sp = copy.deepcopy(world.FIXED_SPECS[k])
     short = copy.deepcopy(world.FIXED_SPECS[3])
@@ -1601,9 +1623,9 @@ def _spec_shrinks(sp):
 # ------------------------------------------------------------------------------------------ evidence metadata
 
 CHUNK = 200
-RULE = (f"catalogue of {len(OPS)} ops ({len(OPS) - len(catalog.EDITORS)} queries + {len(catalog.EDITORS)} explicit editors). Run index i < n*n*5: "
-        "systematic family - ordered pair (op_a, op_b) applied by two clients to one shared all-features annotation (5 fixed "
-        "Specs); next n*5*3: poison sweep - every op once on every fixed Spec with one unresolvable modification at the first "
+RULE = (f"catalogue of {len(OPS)} ops ({len(OPS) - len(catalog.EDITORS)} queries + {len(catalog.EDITORS)} explicit editors). Run index i < n*n*3 (quick; n*n*5 thorough): "
+        "systematic family - ordered pair (op_a, op_b) applied by two clients to one shared all-features annotation (3 of 5 fixed "
+        "Specs per pair in the quick tier, rotating; all 5 in the thorough tier); next n*5*3: poison sweep - every op once on every fixed Spec with one unresolvable modification at the first "
         "residue / last residue / C-terminus, followed by a mass call; next q*5*2: sandwich - query, explicit editor, the same "
         "query again; next l*q*2: lazy pairs - a lazy result advanced by one item, another client's query (also evaluated in "
         "the pristine process), the lazy result drained or abandoned, the query again (second pass in cold processes); next l*8: same-call - two clients make "
@@ -1624,11 +1646,11 @@ _NOPS = len(OPS)
 _NQ = len([o for o in OPS.values() if 'editor' not in o.tags])
 _NL = len([o for o in OPS.values() if o.lazy])
 STATE_MEASURE = 'dump of every shared annotation in the pool after the event'
-FAMILY_STARTS = [0, _NOPS * _NOPS * 5, _NOPS * _NOPS * 5 + _NOPS * 15, _NOPS * _NOPS * 5 + _NOPS * 15 + _NQ * 10,
-                 _NOPS * _NOPS * 5 + _NOPS * 15 + _NQ * 10 + _NL * _NQ * 2,
-                 _NOPS * _NOPS * 5 + _NOPS * 15 + _NQ * 10 + _NL * _NQ * 2 + _NL * 8,
-                 _NOPS * _NOPS * 5 + _NOPS * 15 + _NQ * 10 + _NL * _NQ * 2 + _NL * 8 + _NOPS,
-                 _NOPS * _NOPS * 5 + _NOPS * 15 + _NQ * 10 + _NL * _NQ * 2 + _NL * 8 + _NOPS + _NQ * 5]
+FAMILY_STARTS = [0, _NOPS * _NOPS * 3, _NOPS * _NOPS * 3 + _NOPS * 15, _NOPS * _NOPS * 3 + _NOPS * 15 + _NQ * 10,
+                 _NOPS * _NOPS * 3 + _NOPS * 15 + _NQ * 10 + _NL * _NQ * 2,
+                 _NOPS * _NOPS * 3 + _NOPS * 15 + _NQ * 10 + _NL * _NQ * 2 + _NL * 8,
+                 _NOPS * _NOPS * 3 + _NOPS * 15 + _NQ * 10 + _NL * _NQ * 2 + _NL * 8 + _NOPS,
+                 _NOPS * _NOPS * 3 + _NOPS * 15 + _NQ * 10 + _NL * _NQ * 2 + _NL * 8 + _NOPS + _NQ * 5]
 ASSUMPTIONS = [
     "field accessors (properties, has_*, get_internal_mods_by_index) and Fragment.parent_sequence are references into "
     "the object by design and are not treated as 'results' for the aliasing clause",
